@@ -99,7 +99,7 @@ func gen(t *rapid.T) Case {
 	steps := rapid.IntRange(3, 40).Draw(t, "steps")
 	kinds := []string{"AddErrors", "AddWarnings", "Merge", "Merge", "MergeAsErrors", "MergeAsWarnings", "Inc", "EditErr", "EditWarn"}
 	for i := 0; i < steps; i++ {
-		op := Op{Kind: rapid.SampledFrom(kinds).Draw(t, "kind"), Dst: rapid.IntRange(0, n-1).Draw(t, "dst"), Typ: rapid.IntRange(0, 2).Draw(t, "typ")}
+		op := Op{Kind: rapid.SampledFrom(kinds).Draw(t, "kind"), Dst: rapid.IntRange(0, n-1).Draw(t, "dst"), Typ: rapid.IntRange(0, 3).Draw(t, "typ")}
 		switch op.Kind {
 		case "AddErrors", "AddWarnings":
 			op.Msgs = genMsgs(t, true)
@@ -171,6 +171,9 @@ func mkErr(msg string, typ int) error {
 		return stderrors.New(msg)
 	case 1:
 		return oaerrors.New(422, "%s", msg)
+	case 3:
+		// the same text under another code: still the same message
+		return oaerrors.New(400, "%s", msg)
 	default:
 		return customErr{msg}
 	}
@@ -179,7 +182,7 @@ func mkErr(msg string, typ int) error {
 func mkErrs(msgs []string, typ int) []error {
 	out := make([]error, 0, len(msgs))
 	for i, m := range msgs {
-		out = append(out, mkErr(m, (typ+i)%3))
+		out = append(out, mkErr(m, (typ+i)%4))
 	}
 	return out
 }
